@@ -129,6 +129,9 @@ func (s *Sched) WaitAdopted(n int) bool {
 // owner has parked at its first point (adopted as a schedulable thread), is blocked on a lock held by a parked
 // thread (adopted as a blocked thread), or has finished / gone quiet without reaching any point.
 func (s *Sched) AdoptBackground(pairs [][2]int64) bool {
+	if s.free.Load() {
+		return true // free-running pass: nothing is scheduled
+	}
 	deadline := time.Now().Add(watchdog)
 	for _, pr := range pairs {
 		owner, helper := pr[0], pr[1]
@@ -455,4 +458,24 @@ func (s *Sched) Choices() []int {
 		c[i] = d.Chosen
 	}
 	return c
+}
+
+// RunFree starts all declared threads as ordinary goroutines at once and waits for them: no scheduling, points are
+// no-ops. Used for the separate free-running pass under the race detector (a cooperative scheduler's hand-offs are
+// happens-before edges that blind the detector).
+func (s *Sched) RunFree() {
+	s.free.Store(true)
+	var wg sync.WaitGroup
+	start := make(chan struct{})
+	for i := range s.bodies {
+		wg.Add(1)
+		body := s.bodies[i]
+		go func() {
+			defer wg.Done()
+			<-start
+			body()
+		}()
+	}
+	close(start)
+	wg.Wait()
 }
